@@ -40,4 +40,51 @@ Definition ref_pos (seg pass slice index J1 : Z) (same_lane : bool) : Z :=
   let start := if (pass =? 0) || (slice =? 3) then 0 else (slice + 1) * seg in
   (start + zz) mod (4 * seg).
 
+(* ---- 3.5 / 3.6: the compression function G and the permutation P ---- *)
+
+(* a + b + 2 * trunc(a) * trunc(b) mod 2^64, trunc = the 32 least significant bits *)
+Definition mulmix (a b : Z) : Z := (a + b + 2 * (a mod 2 ^ 32) * (b mod 2 ^ 32)) mod 2 ^ 64.
+
+Definition GB (a b c d : Z) : Z * Z * Z * Z :=
+  let a := mulmix a b in let d := rotr64 (Z.lxor d a) 32 in
+  let c := mulmix c d in let b := rotr64 (Z.lxor b c) 24 in
+  let a := mulmix a b in let d := rotr64 (Z.lxor d a) 16 in
+  let c := mulmix c d in let b := rotr64 (Z.lxor b c) 63 in
+  (a, b, c, d).
+
+(* P on eight 16-byte registers S_0 .. S_7, S_i = v_{2i+1} || v_{2i}: as sixteen 64-bit words v_0 .. v_15
+   in memory (little-endian) order, arranged as the 4 x 4 matrix  v0 v1 v2 v3 / v4 .. v7 / v8 .. v11 / v12 .. v15 *)
+Definition P (v : list Z) : list Z :=
+  match v with
+  | [v0; v1; v2; v3; v4; v5; v6; v7; v8; v9; v10; v11; v12; v13; v14; v15] =>
+    let '(v0, v4, v8, v12) := GB v0 v4 v8 v12 in
+    let '(v1, v5, v9, v13) := GB v1 v5 v9 v13 in
+    let '(v2, v6, v10, v14) := GB v2 v6 v10 v14 in
+    let '(v3, v7, v11, v15) := GB v3 v7 v11 v15 in
+    let '(v0, v5, v10, v15) := GB v0 v5 v10 v15 in
+    let '(v1, v6, v11, v12) := GB v1 v6 v11 v12 in
+    let '(v2, v7, v8, v13) := GB v2 v7 v8 v13 in
+    let '(v3, v4, v9, v14) := GB v3 v4 v9 v14 in
+    [v0; v1; v2; v3; v4; v5; v6; v7; v8; v9; v10; v11; v12; v13; v14; v15]
+  | _ => v
+  end.
+
+Definition xorb (X Y : list Z) : list Z := map (fun p : Z * Z => Z.lxor (fst p) (snd p)) (combine X Y).
+
+(* a 1024-byte block as 128 words = the 8 x 8 matrix of 16-byte registers R_0 .. R_63; row k holds
+   registers 8k .. 8k+7 = words 16k .. 16k+15 *)
+Fixpoint rows (n : nat) (R : list Z) : list (list Z) :=
+  match n with O => [] | S n' => firstn 16 R :: rows n' (skipn 16 R) end.
+(* column i of a matrix given by its rows: register i of every row *)
+Definition column (i : nat) (M : list (list Z)) : list Z :=
+  flat_map (fun row => [nth (2 * i) row 0; nth (2 * i + 1) row 0]) M.
+Definition transpose (M : list (list Z)) : list (list Z) := map (fun i => column i M) (seq 0 8).
+
+(* G(X, Y): R = X xor Y; P on every row of R gives Q; P on every column of Q gives Z; the result is Z xor R *)
+Definition G (X Y : list Z) : list Z :=
+  let R := xorb X Y in
+  let Q := map P (rows 8 R) in
+  let Zc := map P (transpose Q) in          (* Zc[i] = (Z_i, Z_{i+8}, ..., Z_{i+56}) *)
+  xorb (concat (transpose Zc)) R.
+
 End Argon2Spec.
